@@ -86,7 +86,54 @@ pub fn int_leaf(i: &Integer) -> Value { json!({"radix": 16, "value": i.to_string
 pub fn leaf_perturbations(i: &Integer) -> Vec<(&'static str, Integer)> {
     let mut v = vec![("+1", i.clone() + 1u32), ("-1", i.clone() - 1u32)];
     if *i != 0 { v.push(("zero", Integer::from(0))); }
+    // a change above the low 128 / 256 bits and just above the value's own length (a verifier that truncates, masks or
+    // reduces a field before using it lets these through)
+    v.push(("+2^128", i.clone() + pow2(128))); v.push(("+2^256", i.clone() + pow2(256)));
+    v.push(("+2^(bits+1)", i.clone() + pow2(i.significant_bits() + 1)));
     v
+}
+
+/// Paths of all arrays inside a JSON value (with their lengths).
+pub fn array_paths(v: &Value) -> Vec<(Vec<String>, usize)> {
+    fn walk(v: &Value, pre: Vec<String>, out: &mut Vec<(Vec<String>, usize)>) {
+        match v {
+            Value::Object(m) => for (k, x) in m { let mut p = pre.clone(); p.push(k.clone()); walk(x, p, out); },
+            Value::Array(a) => { out.push((pre.clone(), a.len())); for (i, x) in a.iter().enumerate() { let mut p = pre.clone(); p.push(i.to_string()); walk(x, p, out); } }
+            _ => {}
+        }
+    }
+    let mut out = Vec::new(); walk(v, vec![], &mut out); out
+}
+fn at_mut<'a>(v: &'a mut Value, path: &[String]) -> Option<&'a mut Value> {
+    let mut cur = v;
+    for k in path { cur = match cur { Value::Object(m) => m.get_mut(k)?, Value::Array(a) => a.get_mut(k.parse::<usize>().ok()?)?, _ => return None }; }
+    Some(cur)
+}
+/// Structural (shape) edits of the arrays of a serialized proof: per array drop last / drop first / empty / duplicate last, and
+/// jointly "drop the last element of every array of length k" for each k >= 1 (parallel vectors shortened together).
+pub fn array_shape_edits(j: &Value) -> Vec<(String, Value)> {
+    let arrays = array_paths(j);
+    let mut out = Vec::new();
+    for (p, len) in &arrays {
+        if *len == 0 { continue; }
+        let name = p.join("/");
+        let mut x = j.clone(); if let Some(Value::Array(a)) = at_mut(&mut x, p) { a.pop(); } out.push((format!("/{} drop last", name), x));
+        if *len > 1 { let mut x = j.clone(); if let Some(Value::Array(a)) = at_mut(&mut x, p) { a.remove(0); } out.push((format!("/{} drop first", name), x)); }
+        if *len > 1 { let mut x = j.clone(); if let Some(Value::Array(a)) = at_mut(&mut x, p) { a.clear(); } out.push((format!("/{} emptied", name), x)); }
+        let mut x = j.clone(); if let Some(Value::Array(a)) = at_mut(&mut x, p) { let l = a.last().cloned().unwrap(); a.push(l); } out.push((format!("/{} duplicate last", name), x));
+    }
+    let mut lens: Vec<usize> = arrays.iter().map(|a| a.1).filter(|&l| l >= 1).collect(); lens.sort(); lens.dedup();
+    for k in lens {
+        let group: Vec<&Vec<String>> = arrays.iter().filter(|a| a.1 == k).map(|a| &a.0).collect();
+        if group.len() < 2 { continue; }
+        // deepest paths first so that indexes of outer arrays stay valid
+        let mut g = group.clone(); g.sort_by_key(|p| std::cmp::Reverse(p.len()));
+        let mut x = j.clone(); for p in &g { if let Some(Value::Array(a)) = at_mut(&mut x, p) { a.pop(); } }
+        out.push((format!("every array of length {} loses its last element ({} arrays)", k, g.len()), x));
+        let mut x = j.clone(); for p in &g { if let Some(Value::Array(a)) = at_mut(&mut x, p) { if !a.is_empty() { a.remove(0); } } }
+        out.push((format!("every array of length {} loses its first element ({} arrays)", k, g.len()), x));
+    }
+    out
 }
 
 /// +1 / -1 / zero plus, for every modulus the recipient knows, the same residue class with another representative (v + N).
